@@ -75,11 +75,20 @@ def make_plan(seed, run, engine, tier="quick"):
     data = dict(X=np.asarray(X).tolist(), kind="reg", degen=None, gen=dict(kind=kind))
     return dict(check="C09", level="rng", seed=int(seed), run=int(run), engine=engine,
                 rng_seed=int(rng.integers(1 << 31)), data=data, grp_ptr=ptr, grp_indices=idx,
-                sample_weights=G.sig3(rng.uniform(0.2, 3.0, n), 3).tolist(),
+                sample_weights=_sample_weights(rng, n),
                 y=G.sig3(rng.standard_normal(n), 4).tolist(),
                 rng_draws=[int(x) for x in rng.integers(1 << 31, size=n_seeds)],
                 adversarial=[float(10.0 ** (-e)) for e in (3, 5, 8)],
                 family=dict(solver="rng", datafit=None, penalty=None), storage="csc")
+
+
+def _sample_weights(rng, n):
+    """Sample weights; in a third of the plans some are exactly zero (resampling counts): an
+    accessor that rescales the caller's arrays in place and back turns their rows into 0 / 0."""
+    sw = G.sig3(rng.uniform(0.2, 3.0, n), 3)
+    if n >= 3 and rng.random() < 0.35:
+        sw[rng.choice(n, int(rng.integers(1, max(2, n // 3 + 1))), replace=False)] = 0.0
+    return sw.tolist()
 
 
 def _true(X):
@@ -289,6 +298,10 @@ def run_plan(plan):
         if exc.get("harness"):
             raise
         add("crash", ("group", "dense", "crash", exc["type"]), dict(exc=exc), dict(datafit="group", exc_type=exc["type"]))
+    # the accessors are given the caller's CSC arrays: they may not write into them
+    if not np.array_equal(Xc.data, sp.csc_matrix(X).data):
+        add("input_modified", ("accessor", "csc_arrays_modified"),
+            dict(n_nan=int(np.isnan(Xc.data).sum())), dict(datafit="accessor", what="input_modified"))
     probes["worst_rel_below_permille"] = int(1000 * worst["rel_below"])
     return dict(check="C09", seed=plan.get("seed"), run=plan.get("run"), engine=env.engine(),
                 digest=log.hexdigest(), violations=violations, counts=counts,
